@@ -214,6 +214,38 @@ func checkC11(tier string) int {
 			m := mon.NewC11()
 			return wrapStateful(m.OnBlock)
 		},
+		tune: func(cfg *drive.Cfg, i int) {
+			if i%8 == 6 {
+				// every validator unstakes to just below the minimum in the same block: from the next block on nobody
+				// is elected (the last active set stays), and the unstaked amounts mature during that stretch
+				w1, _ := world.New(cfg.Params)
+				cfg.ExtraPlan = func(c *gen.Ctx) []hist.TxSpec {
+					var out []hist.TxSpec
+					if c.H == 30 {
+						min := mon.StakingOptions(c.S).Min()
+						for _, v := range w1.Vals {
+							if cur := gen.StakeOf(c.S, v.ValAddr).Int64(); cur >= min && min > 1 {
+								out = append(out, gen.Build(c, "UNSTAKE", &staking.Unstake{ValidatorAddress: v.ValAddr, StakeAddress: v.Stake.Addr, Stake: txb.Amt("OLT", fmt.Sprint(cur-min+1))}, "every validator unstakes to just below the minimum in the same block", &v.Stake, gen.ConsAccount(v)))
+							}
+						}
+					}
+					return out
+				}
+				// (nobody stakes in again before the amounts have matured)
+				cfg.FilterPlan = func(c *gen.Ctx, specs []hist.TxSpec) []hist.TxSpec {
+					if c.H < 30 || c.H > 38 {
+						return specs
+					}
+					var keep []hist.TxSpec
+					for _, sp := range specs {
+						if sp.Kind != "STAKE" {
+							keep = append(keep, sp)
+						}
+					}
+					return keep
+				}
+			}
+		},
 		gates:   map[string]int{"ok:STAKE": 2, "ok:UNSTAKE": 1, "ok:WITHDRAW": 1},
 		absents: true,
 	}, tier)
